@@ -816,6 +816,26 @@ func c09Crafted(rng *core.RNG) []c09Blob {
 		wb, _ := imggen.WebPSpec{Kind: "VP8X", W: 5, H: 7, ICC: mid, Payload: []byte{1, 2, 3}}.Build()
 		add("load", "WebP", wb, fmt.Sprintf("nested-deflate: the same %d-byte profile in a WebP", len(mid)))
 	}
+	// two declared numbers that vouch for each other (a container size and a chunk length inside it,
+	// both huge, the file a few dozen bytes): nothing of that size may be set aside before it has arrived
+	for _, pr := range [][2]uint32{{0x7FFFFFFF, 0x30000000}, {0xFFFFFFFE, 0xF0000000}, {0x40000000, 0x3FFFFF00}, {0x10000000, 0x0FFFFF00}} {
+		wb, _ := imggen.WebPSpec{Kind: "VP8X", W: 5, H: 7, Flags: 0x20, ICC: []byte("twelve bytes"), Payload: []byte{1, 2, 3}}.Build()
+		b := append([]byte{}, wb...)
+		binary.LittleEndian.PutUint32(b[4:], pr[0])
+		if i := bytes.Index(b, []byte("ICCP")); i > 0 {
+			binary.LittleEndian.PutUint32(b[i+4:], pr[1])
+			add("load", "WebP", b, fmt.Sprintf("vouching-sizes: RIFF size %#x and ICCP length %#x in a %d-byte WebP", pr[0], pr[1], len(b)))
+			add("load", "WebP", b[:i+8+12], fmt.Sprintf("vouching-sizes: RIFF size %#x and ICCP length %#x in a WebP that ends %d bytes into the chunk", pr[0], pr[1], 12))
+		}
+		// PNG: chunk length and (there is no container size) the next chunk's offset; ICC: profile size and tag size
+		prof, _ := imggen.ICCSpec{Header: imggen.MinimalHeader(false), Tags: []imggen.ICCTag{{Sig: "desc", Data: imggen.TextDescription("v")}, {Sig: "cprt", Data: []byte{1, 2, 3, 4}}}}.Build()
+		p2 := append([]byte{}, prof...)
+		binary.BigEndian.PutUint32(p2[0:], pr[0])
+		binary.BigEndian.PutUint32(p2[128+4+12+8:], pr[1]) // size of the second tag
+		add("icc", "ICC", p2, fmt.Sprintf("vouching-sizes: profile size %#x and a tag size %#x in a %d-byte profile", pr[0], pr[1], len(p2)))
+		binary.BigEndian.PutUint32(p2[128+4+12+4:], pr[1]/2) // ... and its offset
+		add("icc", "ICC", p2, fmt.Sprintf("vouching-sizes: profile size %#x, tag offset %#x and size %#x in a %d-byte profile", pr[0], pr[1]/2, pr[1], len(p2)))
+	}
 	// an iCCP stream that is not zlib at all (bad header), short and long: whatever machinery
 	// feeds the decompressor must not wait for a reader that has given up
 	for _, n := range []int{40, 5000, 70000, 1 << 20} {
